@@ -182,3 +182,29 @@ pub fn amplification_allowance(total_sent: u64, total_recvd: u64, segment_size: 
     core::mem::forget(p);
     f
 }
+
+/// C07 / C15: a path created for a migrated peer (`PathData::from_previous`, the NAT-rebinding
+/// branch of `Connection::migrate`) starts UNVALIDATED with zeroed amplification counters and
+/// nothing in flight, whatever the state of the path it was derived from; it keeps the RTT and MTU
+/// estimates; no path challenge is pending yet.
+pub fn from_previous(prev_validated: bool, prev_sent: u64, prev_recvd: u64, prev_in_flight: u64, prev_gen: u64, new_gen: u64, new_port: u16, bytes_to_send: u64) -> u32 {
+    if prev_sent >= V62 || prev_recvd >= V62 || prev_in_flight >= V62 || bytes_to_send >= V62 || bytes_to_send == 0 {
+        return 0;
+    }
+    let Some(now) = crate::verif::mk_instant(2, 0) else { return 0 };
+    let Some(mut prev) = mk_path(prev_validated, prev_sent, prev_recvd, prev_gen, prev_in_flight, 1) else { return 0 };
+    prev.challenge = Some(77);
+    let remote = SocketAddr::new(std::net::IpAddr::V4(std::net::Ipv4Addr::new(10, 0, 0, 1)), new_port);
+    let p = PathData::from_previous(remote, &prev, new_gen, now);
+    assert!(!p.validated);
+    assert!(p.total_sent == 0 && p.total_recvd == 0);
+    assert!(p.in_flight.bytes == 0 && p.in_flight.ack_eliciting == 0);
+    assert!(p.challenge.is_none() && !p.challenge_pending);
+    assert!(p.remote == remote && p.generation() == new_gen);
+    assert!(p.current_mtu() == prev.current_mtu());
+    // consequently nothing at all may be sent to the new address before it sends something
+    assert!(p.anti_amplification_blocked(bytes_to_send));
+    core::mem::forget(p);
+    core::mem::forget(prev);
+    1
+}
